@@ -197,6 +197,17 @@ def build(world, with_registry=True, _holder=None):
         scope = tuple(core.scope_value(t) for t in n.get("scope", ()))
         depth = n.get("depth", 0)
         with plan.scope(*scope):
+            if kind == "call" and n.get("cfn"):
+                # a consumer implemented in C that always fails (operator.getitem on a value that is not
+                # subscriptable): no Python frame of its own takes part in the failure
+                import operator
+
+                args = [materialise(s, b) for s in n.get("args", ())]
+                b.supplied[i] = (args, [])
+                with plan.scope("cfn", i):
+                    remember(i, plan.call(operator.getitem, args[0], 0))
+                b.frames[("node", i)] = _frames(0)
+                kind = None
             if kind == "call":
                 fn = b.fns[i] = make_fn(i, n.get("fname", "f"))
                 args = [materialise(s, b) for s in n.get("args", ())]
@@ -266,7 +277,7 @@ def build(world, with_registry=True, _holder=None):
                     return node
 
                 remember(i, _create(depth, thunk))
-            else:
+            elif kind is not None:
                 raise ValueError(kind)
         for d in n.get("deps", ()):
             plan.add_dependency(b.nodes[d], b.nodes[i])
